@@ -19,7 +19,8 @@ type Config struct {
 	Singleton    map[string]bool // struct types with ONE instance: their mutexes guard any access
 	APIStructs   map[string]bool // exported methods of these are entry points (called from other packages)
 	Constructors func(name string) bool
-	CtorResults  map[string]bool // functions returning one of these named types are constructor options
+	CtorResults  map[string]bool            // functions returning one of these named types are constructor options
+	OnlyFields   map[string]map[string]bool // struct -> the only fields of it that are tracked (annotation)
 }
 
 // ---------------------------------------------------------------------------------------------- data
@@ -30,15 +31,16 @@ type heldLock struct {
 }
 
 type Access struct {
-	Var   string
-	Write bool
-	Fn    *Fn
-	Root  string
-	Fresh bool // root is an object created in this very function (not yet shared)
-	File  string
-	Line  int
-	Held  []heldLock // locally held (intra-procedural)
-	Locks []string   // final: definitely held lock ids that count for this access
+	Var    string
+	Write  bool
+	Fn     *Fn
+	Root   string
+	Fresh  bool // root is an object created in this very function (not yet shared)
+	Exempt bool // field of a synchronisation type (recorded only to explain dynamic reports)
+	File   string
+	Line   int
+	Held   []heldLock // locally held (intra-procedural)
+	Locks  []string   // final: definitely held lock ids that count for this access
 }
 
 type CallSite struct {
@@ -232,6 +234,9 @@ func (a *Analysis) AddPackage(pkg *types.Package, info *types.Info, files []*ast
 		}
 		for i := 0; i < st.NumFields(); i++ {
 			f := st.Field(i)
+			if only, ok := a.cfg.OnlyFields[sname]; ok && !only[f.Name()] {
+				continue
+			}
 			if ty, ex := isSyncType(f.Type()); ex {
 				a.Exempt[sname+"."+f.Name()] = ty
 			} else {
@@ -633,13 +638,16 @@ func (w *walker) record(x ast.Expr, field string, write bool, held []heldLock, a
 	if !ok {
 		return
 	}
-	if _, ex := w.a.Exempt[sname+"."+field]; ex {
-		return
-	}
 	if w.a.localValue(x) {
 		return
 	}
+	if only, ok := w.a.cfg.OnlyFields[sname]; ok && !only[field] {
+		return
+	}
 	acc := &Access{Var: sname + "." + field, Write: write, Fn: w.fn, Held: copyHeld(held)}
+	if _, ex := w.a.Exempt[sname+"."+field]; ex {
+		acc.Exempt = true
+	}
 	if id := rootOf(x); id != nil {
 		acc.Root = id.Name
 		obj := w.a.curInf.Uses[id]
